@@ -149,7 +149,10 @@ def gen_one(rng, i, tier):
             "via": rng.choice(["ctor", "ctor", "from_labels"]),
             "scheme": rng.randrange(len(LABEL_SCHEMES)), "perm_seed": rng.randint(0, 10**6),
             "dtype": dtype, "container": rng.choice(["array", "array", "list"]),
-            "ts": ts, "rs": rs}
+            "ts": ts, "rs": rs,
+            # a second construction with NaN scores mixed in (a NaN sorts last and compares False with everything, so a
+            # range check that looks at the ends of the sorted array, or at min/max, is blinded by it)
+            "nanvar": rng.choice(["g", "f", "both"]) if rng.random() < 0.3 else None}
 
 
 def _outside(inp):
@@ -449,6 +452,26 @@ def build(inp) -> Case:
     else:
         lines.append(line("fraud", **ctor_line, eg=eg, ef=ef, sc=sc, raised=1))
 
+    nan_case = None
+    if inp.get("nanvar"):
+        nrng = np.random.RandomState((inp["perm_seed"] + 17) % (2**31))
+
+        def with_nans(xs):
+            xs = list(xs)
+            for _ in range(int(nrng.randint(1, 3))):
+                xs.insert(int(nrng.randint(0, len(xs) + 1)), math.nan)
+            return xs
+        g2 = with_nans(g) if inp["nanvar"] in ("g", "both") else list(g)
+        f2 = with_nans(f) if inp["nanvar"] in ("f", "both") else list(f)
+        r2 = common.call(FraudScores, genuines=np.array(g2, dtype=float), frauds=np.array(f2, dtype=float))
+        if r2[0] == "exc" and r2[1] != "ValueError":
+            pre.append(Issue("PROPFAIL", "raises", f"FraudScores with NaN scores raised {r2[1]}: {r2[2]}", f"ctor/raises/{r2[1]}"))
+        else:
+            nan_case = (g2, f2, r2[0] == "exc")
+            lines.append(line("fraudvalid", g=ql([x for x in g2 if not math.isnan(x)]),
+                              f=ql([x for x in f2 if not math.isnan(x)]), raised=int(nan_case[2])))
+            evals += 1
+
     inp["_evals"] = evals
     n_lab = 1 if lab_sendable else 0
     accepted = fs is not None
@@ -463,6 +486,17 @@ def build(inp) -> Case:
                                  f"fraud<->neg", "labels/table"))
             if (o["mdg"], o["mdf"], o["mbp"], o["mbn"]) != (d2b["genuine"], d2b["fraud"], b2d["pos"], b2d["neg"]):
                 iss.append(Issue("DISAGREE", "labels", f"model tables {o} impl {d2b} {b2d}", "labels/table"))
+        if nan_case is not None:
+            o2 = outs[n_lab + 1]
+            # only the unambiguous direction is judged: a non-NaN score outside [0,1] must be rejected whatever
+            # else the arrays contain (whether a NaN alone counts as "outside" is left open by the property)
+            if o2["outside"] == "1" and not nan_case[2]:
+                bad = [x for x in nan_case[0] + nan_case[1] if x < 0 or x > 1]
+                iss.append(Issue("PROPFAIL", "valid", f"accepted out-of-range scores {bad[:5]} when NaN scores are present: "
+                                 f"FraudScores(genuines={nan_case[0][:8]}, frauds={nan_case[1][:8]})",
+                                 "fraud/valid/accepts-out-of-range-with-nan"))
+            if o2["outside"] == "1" and o2["res"] == "ok":
+                iss.append(Issue("DISAGREE", "valid", "model accepts although a score is outside", "fraud/valid/model"))
         o = outs[n_lab]
         if raised is None:
             return iss
